@@ -112,8 +112,58 @@ def reg_text(f, is_main):
     return s
 
 
-def materialise(rec, pool):
-    """Real files for a REPLAY record. Returns (args without output/kind flags, soname->file id)."""
+def script_segment(tokens):
+    """(start, end) of the first run `file* (--as-needed file+ --no-as-needed file*)+` of the link line that
+    starts where neither --as-needed nor --whole-archive is in force (token 0, the main object, stays on the
+    command line). By the definition of input linker scripts such a run is the same link line as ONE script
+    `INPUT ( f.. AS_NEEDED ( f.. ) f.. )`: the script inherits the command-line state (nothing in force),
+    AS_NEEDED ( ... ) is --as-needed for exactly the files inside, and the state after the script is the state
+    before it. Needed.tla's three rules therefore apply unchanged to the rendered line (the real GNU ld and lld
+    are run on the rendered line too, so a wrong equivalence would surface as a spec-vs-reference disagreement)."""
+    states, asn, wa, stack = [], False, False, []
+    for tk in tokens:
+        states.append((asn, wa))
+        t = tk["t"]
+        if t == "as":
+            asn = True
+        elif t == "noas":
+            asn = False
+        elif t == "wa":
+            wa = True
+        elif t == "nowa":
+            wa = False
+        elif t == "push":
+            stack.append((asn, wa))
+        elif t == "pop":
+            if not stack:
+                break
+            asn, wa = stack.pop()
+    n = len(states)
+    for s0 in range(1, n):
+        if states[s0] != (False, False):
+            continue
+        j = s0
+        while j < n and tokens[j]["t"] == "file":
+            j += 1
+        groups, end = 0, None
+        while j < n and tokens[j]["t"] == "as":
+            k = j + 1
+            while k < n and tokens[k]["t"] == "file":
+                k += 1
+            if k == j + 1 or k >= n or tokens[k]["t"] != "noas":
+                break
+            k += 1
+            while k < n and tokens[k]["t"] == "file":
+                k += 1
+            groups, j, end = groups + 1, k, k
+        if groups:
+            return s0, end
+    return None
+
+
+def materialise(rec, pool, script=None):
+    """Real files for a REPLAY record. Returns (args without output/kind flags, soname->file id). With `script`
+    (a path) the first eligible run of the link line is rendered as an input linker script (script_segment)."""
     paths, sonames = {}, {}
     for i, f in enumerate(rec["files"], start=1):
         if f["kind"] == "lib":
@@ -125,8 +175,19 @@ def materialise(rec, pool):
             o = symgen.cached_obj(pool, reg_text(f, i == 1), stem="main" if i == 1 else "reg")
             paths[i] = symgen.cached_archive(pool, o) if f["kind"] == "member" else o
     args = []
-    for tk in rec["tokens"]:
+    seg = script_segment(rec["tokens"]) if script is not None else None
+    for pos, tk in enumerate(rec["tokens"]):
+        if seg and seg[0] <= pos < seg[1]:
+            if pos == seg[0]:
+                part = rec["tokens"][seg[0]:seg[1]]
+                items = ["AS_NEEDED (" if t["t"] == "as" else ")" if t["t"] == "noas" else str(paths[t["f"]]) for t in part]
+                only_libs = all(rec["files"][t["f"] - 1]["kind"] == "lib" for t in part if t["t"] == "file")
+                Path(script).write_text(f"/* GNU ld script */\n{'GROUP' if only_libs else 'INPUT'} ( {' '.join(items)} )\n")
+                args.append(str(script))
+            continue
         args.append(FLAG[tk["t"]] if tk["t"] != "file" else str(paths[tk["f"]]))
+    rec["script"] = None if not seg else {"tokens": [seg[0], seg[1]], "text": Path(script).read_text(),
+                                           "file_after_group": rec["tokens"][seg[1] - 1]["t"] == "file"}
     return args, sonames
 
 
@@ -197,7 +258,8 @@ def run(ctx):
 
         def job(j):
             k, rec, kind = j
-            args, sonames = materialise(rec, pool)
+            # every second link line is rendered with an input linker script where it has an eligible run
+            args, sonames = materialise(rec, pool, script=(d / f"libscr{k}.so") if k % 2 == 0 else None)
             j = (k, rec, args, sonames, kind)
             res = {}
             for linker in symgen.LINKERS:
@@ -223,7 +285,7 @@ def run(ctx):
                         files[f"in/{p.name}"] = p.read_bytes()
                         s = p.with_suffix(".s")
                 meta = {"args": KINDS[kind] + [("in/" + Path(a).name) if Path(a).exists() else a for a in args] + ["-o", "out"],
-                        "case": describe(rec), "kind": kind, "observed": {"wild": w_needed, "ld": g_needed if g_ok else "failed",
+                        "case": describe(rec), "kind": kind, "linker_script": rec.get("script"), "observed": {"wild": w_needed, "ld": g_needed if g_ok else "failed",
                                                                             "lld": l_needed if l_ok else "failed"},
                         "expected": {"property_rule": rec["final"], "gnu_ld_rule": None if rec["gnu_fails"] else rec["gnu"]},
                         "sonames": sonames, "wild_stderr": w_r.err[-800:]}
@@ -311,6 +373,12 @@ def run(ctx):
                     raise ToolError("binding demonstration failed: patched DT_NEEDED string not observed")
                 break
         cov["binding_demo"] = demo
+    scripted = [rec for (k, rec, *_), _ in results if rec.get("script")]
+    stats["link_lines_rendered_with_input_linker_script"] = len(scripted)
+    stats["of_which_a_file_follows_the_AS_NEEDED_group"] = sum(1 for r in scripted if r["script"]["file_after_group"])
+    if stats["of_which_a_file_follows_the_AS_NEEDED_group"] < 5:
+        raise ToolError(f"vacuous population: only {len(scripted)} link lines rendered with an input linker script, "
+                        f"{stats['of_which_a_file_follows_the_AS_NEEDED_group']} with a file after the AS_NEEDED group")
     cov["traces_validated_against_impl"] = replayed
     stats["asneeded_in_whole_archive_cases"] = stats_must
     cov["replay_stats"] = stats
@@ -326,5 +394,6 @@ def run(ctx):
             "helper shared libraries have no undefined references (GNU ld's shared->shared activation rule is not exercised)",
             "the property text is read as the order-independent rule (validated against lld on every case); GNU ld's order-dependent result is accepted as well wherever GNU ld links the input (validated against ld 2.40 on every case)",
             "replay is a seeded sample of the TLC-enumerated configurations",
+            "input linker scripts: every second replayed link line with a run `file* (--as-needed file+ --no-as-needed file*)+` outside --as-needed / --whole-archive regions is rendered as INPUT/GROUP ( .. AS_NEEDED ( .. ) .. ) - the same link line by definition of AS_NEEDED, checked against GNU ld and lld on the rendered line; scripts inside --as-needed or --whole-archive regions and nested scripts are not generated",
         ],
     }
